@@ -301,8 +301,19 @@ def _through_params(prog, classes, f, call, v, vf, depth=2):
     """The constructor argument as the *callers* supply it: when the value is a parameter of a private helper that
     wraps the constructor call (`_derive_instance(self, graph, constraints)`), it is followed to every call site of
     that helper in the class family (extract-method invariance); otherwise it is the value itself."""
+    fallback = None
+    reassigned = [s_ for s_ in walk_fn(vf) if isinstance(s_, ast.Assign) and norm(s_.targets[0]) == getattr(v, 'id', None)]
+    if isinstance(v, ast.Name) and v.id in vf.params and reassigned:
+        # `if p is None: p = <fallback>` - the optional-argument idiom: callers that pass the argument supply the value,
+        # the others get the fallback
+        guards_ = [i_ for i_ in walk_fn(vf) if isinstance(i_, ast.If) and none_test(i_.test) == ('is_none', v.id) and
+                   len(i_.body) == 1 and i_.body[0] in reassigned and not i_.orelse]
+        if len(reassigned) == 1 and len(guards_) == 1 and isinstance(vf.param_default(v.id), ast.Constant) and \
+                vf.param_default(v.id).value is None:
+            fallback = reassigned[0].value
+            reassigned = []
     if isinstance(v, ast.Name) and v.id in vf.params and v.id not in ('self', 'cls') and depth > 0 and \
-            not any(isinstance(s_, ast.Assign) and norm(s_.targets[0]) == v.id for s_ in walk_fn(vf)):
+            not reassigned:
         found = False
         for g in prog.all_functions():
             if g.owner_class not in classes:
@@ -317,7 +328,10 @@ def _through_params(prog, classes, f, call, v, vf, depth=2):
                     for k in c2.keywords:
                         if k.arg == v.id:
                             arg = k.value
-                    if arg is None:
+                    if arg is None or (isinstance(arg, ast.Constant) and arg.value is None):
+                        if fallback is not None:
+                            found = True
+                            yield g, c2, fallback, vf
                         continue
                     found = True
                     yield from _through_params(prog, classes, g, c2, arg, g, depth - 1)
